@@ -377,12 +377,14 @@ func GetAcsUrlAndBindingForResponse(
 		}
 		if !isDefaultFound {
 			index := 0
+			indexFound := false
 			for _, acs := range acs {
 				i, _ := strconv.Atoi(acs.Index)
-				if index == 0 || i < index {
+				if !indexFound || i < index {
 					acsUrl = acs.Location
 					protocolBinding = acs.Binding
 					index = i
+					indexFound = true
 				}
 			}
 		}
